@@ -220,16 +220,41 @@ def r07_2(ctx):
         ctx.check(not bad, "%s collects, for every point, the evaluator's own result for that point" % w.name, detail="a sampled value is copied from another point or its evaluation depends on a property of the expression",
                   expected="%s.append(stage._method.eval_at_*(stage, expr, <indices of the point>)) only, under no condition but include_first/include_last" % sorted(vlists)[0],
                   found="; ".join("%s%s" % (ast.unparse(b)[:70], (" if " + " and ".join(ast.unparse(t) for t, _ in scw.guards(b))) if scw.guards(b) else "") for b in bad), fi=w, node=bad[0] if bad else None)
-    # dispatch of grid names
+    # dispatch of grid names: Stage._sample is run by the simulator for every grid name (with and without refine)
+    got = sample_dispatch(ctx)
+    want = {("control", None): "_grid_control", ("control", 3): "_grid_control", ("integrator", None): "_grid_integrator", ("integrator", 3): "_grid_intg_fine",
+            ("integrator_roots", None): "_grid_integrator_roots", ("gist", None): "_grid_gist", ("no_such_grid", None): "<raise>"}
     s = P.own_method("Stage", "_sample")
-    table = {}
-    for i in walk_no_nested(s.node):
-        if isinstance(i, ast.If) and isinstance(i.test, ast.Compare) and ast.unparse(i.test.left) == "grid" and isinstance(i.test.comparators[0], ast.Constant):
-            calls = [c for st in i.body for c in ast.walk(st) if isinstance(c, ast.Call) and isinstance(c.func, ast.Attribute) and c.func.attr.startswith("_grid_")]
-            table[i.test.comparators[0].value] = sorted({c.func.attr for c in calls})
-    want = {"control": ["_grid_control"], "integrator": ["_grid_integrator", "_grid_intg_fine"], "integrator_roots": ["_grid_integrator_roots"], "gist": ["_grid_gist"]}
-    got = {k: v for k, v in table.items() if k in want}
-    ctx.check(got == want, "Stage._sample dispatches each grid name to its walker", detail="grid dispatch", expected=want, found=got, fi=s, sample={"dispatch": got})
+    ctx.check(got == want, "Stage._sample dispatches each grid name to its walker", detail="grid dispatch", expected=want, found=got, fi=s, sample={"dispatch": str(got)})
+
+
+def sample_dispatch(ctx):
+    """{(grid name, refine): walker called by Stage._sample} from a simulated call (rkverif/sim.py); '<raise>' when rejected."""
+    from ..sim import Sim, fresh_obj
+    from ..layout import Sym, LayoutUnknown
+    P = ctx.prog
+    cache = P.__dict__.setdefault("_sample_dispatch", {})
+    if "r" in cache:
+        return cache["r"]
+    f = P.own_method("Stage", "_sample")
+    out = {}
+    for grid, refine in (("control", None), ("control", 3), ("integrator", None), ("integrator", 3), ("integrator_roots", None), ("gist", None), ("no_such_grid", None)):
+        called = []
+
+        def h_callable(sim, target, args, kwargs, n, called=called):
+            if isinstance(target, Sym) and target.op == "attr" and str(target.args[-1]).startswith("_grid_"):
+                called.append(target.args[-1])
+                return (Sym("time"), Sym("res"))
+            return NotImplemented
+        hooks = {"*callable": h_callable, "self._parse_grid": lambda s_, r, a, k, n: (a[0], True, True), "._parse_grid": lambda s_, r, a, k, n: (a[0], True, True)}
+        kw = {} if refine is None else {"refine": refine}
+        try:
+            Sim(P, hooks=hooks).call(f, [fresh_obj("self"), Sym("expr")], {"grid": grid}, extra_env={f.kwarg: dict(kw)} if f.kwarg else None)
+            out[(grid, refine)] = called[0] if len(called) == 1 else "<%d calls>" % len(called)
+        except LayoutUnknown as e:
+            out[(grid, refine)] = "<raise>" if "raise reached" in str(e) else "<unknown: %s>" % str(e)[:60]
+    cache["r"] = out
+    return out
 
 
 @rule("R07.3", min_instances=4, desc="Stage.sample substitutes placeholders in both times and values; Stage.value = placeholders(method.eval(expr))")
